@@ -185,6 +185,10 @@ func (k Keeper) EscrowReporterStake(ctx context.Context, reporterAddr sdk.AccAdd
 	// amount should be proportional to the total tokens the reporter had at the time of the report
 	for i, del := range report.TokenOrigins {
 		delegatorShare := math.LegacyNewDecFromInt(del.Amount).Quo(math.LegacyNewDecFromInt(totalTokens)).Mul(math.LegacyNewDecFromInt(amt)).RoundInt()
+		// rounding up must not hand out more than is left, or the last entry would end up negative
+		if delegatorShare.GT(leftover) {
+			delegatorShare = leftover
+		}
 		leftover = leftover.Sub(delegatorShare)
 
 		// leftover amount is taken from the last selector in the iteration
